@@ -5,6 +5,7 @@ use tokio::io::{AsyncWrite, AsyncWriteExt};
 
 use crate::command::handlers::query::QueryExecutionPipeline;
 use crate::command::types::{Command, MaterializedQuerySpec};
+use crate::engine::auth::{AuthManager, BYPASS_USER_ID};
 use crate::engine::core::read::flow::BatchPool;
 use crate::engine::materialize::{
     HighWaterMark, MaterializationCatalog, MaterializationEntry, MaterializedQuerySpecExt,
@@ -16,6 +17,48 @@ use crate::shared::config::CONFIG;
 use crate::shared::path::absolutize;
 use crate::shared::response::render::Renderer;
 use crate::shared::response::{Response, StatusCode};
+
+/// `handle` for an authenticated caller: materialising a query reads its events, so it needs
+/// the same read permission as running the query.
+pub async fn handle_as<W: AsyncWrite + Unpin>(
+    cmd: &Command,
+    shard_manager: &ShardManager,
+    registry: &Arc<tokio::sync::RwLock<SchemaRegistry>>,
+    auth_manager: Option<&Arc<AuthManager>>,
+    user_id: Option<&str>,
+    writer: &mut W,
+    renderer: &dyn Renderer,
+) -> std::io::Result<()> {
+    if let (Some(auth_mgr), Command::RememberQuery { spec }) = (auth_manager, cmd) {
+        let Some(uid) = user_id else {
+            let resp = Response::error(StatusCode::Unauthorized, "Authentication required");
+            return writer.write_all(&renderer.render(&resp)).await;
+        };
+        if uid != BYPASS_USER_ID {
+            if let Command::Query {
+                event_type,
+                event_sequence,
+                ..
+            } = spec.query.as_ref()
+            {
+                let mut wanted = vec![event_type.as_str()];
+                if let Some(seq) = event_sequence {
+                    wanted.extend(seq.links.iter().map(|(_, t)| t.event.as_str()));
+                }
+                for t in wanted {
+                    if !auth_mgr.can_read(uid, t).await {
+                        let resp = Response::error(
+                            StatusCode::Forbidden,
+                            &format!("Read permission denied for event type '{}'", t),
+                        );
+                        return writer.write_all(&renderer.render(&resp)).await;
+                    }
+                }
+            }
+        }
+    }
+    handle(cmd, shard_manager, registry, writer, renderer).await
+}
 
 pub async fn handle<W: AsyncWrite + Unpin>(
     cmd: &Command,
